@@ -128,8 +128,16 @@ Definition spec_tcp_state (st : Z) : option bytes :=
 Definition spec_none : bytes := bs "NONE".
 
 (* ------------------------------------------------------------ UNIX sockets *)
-Inductive utype := UStream | UDgram | USeqpacket.
-Definition utype_num (t : utype) : Z := match t with UStream => 1 | UDgram => 2 | USeqpacket => 5 end.
+(* sk_type: the three types AF_UNIX has, and -- to state the documented fallback -- any other one-digit value *)
+Inductive utype := UStream | UDgram | USeqpacket | UOther (n : Z).
+Definition utype_num (t : utype) : Z := match t with UStream => 1 | UDgram => 2 | USeqpacket => 5 | UOther n => n end.
+Definition wf_utype (t : utype) : bool :=
+  match t with UOther n => (0 <=? n) && (n <=? 9) && negb ((n =? 1) || (n =? 2) || (n =? 5)) | _ => true end.
+(* the members of socket.SocketKind on Linux: SOCK_STREAM 1, SOCK_DGRAM 2, SOCK_RAW 3, SOCK_RDM 4, SOCK_SEQPACKET 5
+   (and the flags SOCK_NONBLOCK, SOCK_CLOEXEC); AF_UNIX 1, AF_INET 2, AF_INET6 10 are members of socket.AddressFamily.
+   The type of a row IS the member when there is one (SOCK_SEQPACKET, not the bare 5), else the plain number *)
+Definition spec_sock_kind (n : Z) : tagged :=
+  if (1 <=? n) && (n <=? 5) || (n =? 2048) || (n =? 524288) then TEnum n else TInt n.
 
 Record usock := {
   u_pad : nat -> nat;
@@ -161,7 +169,7 @@ Definition path_of (u : usock) : bytes := match u_path u with Some p => p | None
    carry it -- that class is excluded here (see C11_unix_name_with_lf_splits for what then happens) *)
 Definition wf_usock (u : usock) : bool :=
   tok_ok (u_num u) && tok_ok (u_ref u) && tok_ok (u_proto u) && tok_ok (u_flags u) && tok_ok (u_st u)
-  && is_dec (u_inode u) && negb (contains 10 (path_of u)) && negb (contains 0 (path_of u)).
+  && is_dec (u_inode u) && negb (contains 10 (path_of u)) && negb (contains 0 (path_of u)) && wf_utype (u_type u).
 (* the fixed-format part of a record: everything before the name *)
 Definition uline_head (u : usock) : bytes :=
   k_seq (u_pad u) 0 [u_num u; u_ref u; u_proto u; u_flags u; hexw 4 (utype_num (u_type u)); u_st u]
@@ -312,7 +320,7 @@ Definition conn_admits (k : bytes) (fam ty : Z) : bool :=
 
 (* one demanded row; the owner may be any of [e_owners] (a TCP/UDP socket held through several
    descriptors is reported once, with one of its holders) *)
-Record entry := { e_family : Z; e_type : Z; e_laddr : addr; e_raddr : addr; e_status : bytes;
+Record entry := { e_family : tagged; e_type : tagged; e_laddr : addr; e_raddr : addr; e_status : bytes;
                   e_owners : list (option Z * Z) }.
 
 Definition row_ok (r : row) (e : entry) : Prop :=
@@ -323,7 +331,7 @@ Definition row_ok (r : row) (e : entry) : Prop :=
 Definition inet_entry (own : bytes -> list (option Z * Z)) (fam ty : Z) (s : isock) : list entry :=
   match own (s_inode s) with
   | [] => []
-  | os => [{| e_family := fam; e_type := ty;
+  | os => [{| e_family := TEnum fam; e_type := TEnum ty;
               e_laddr := spec_addr (s_lip s) (s_lport s); e_raddr := spec_addr (s_rip s) (s_rport s);
               e_status := if ty =? 1 then match spec_tcp_state (s_st s) with Some n => n | None => [] end
                           else spec_none;
@@ -331,7 +339,7 @@ Definition inet_entry (own : bytes -> list (option Z * Z)) (fam ty : Z) (s : iso
   end.
 (* UNIX: one row per holder *)
 Definition unix_entry (own : bytes -> list (option Z * Z)) (u : usock) : list entry :=
-  map (fun o => {| e_family := 1; e_type := utype_num (u_type u);
+  map (fun o => {| e_family := TEnum 1; e_type := spec_sock_kind (utype_num (u_type u));
                    e_laddr := APath (path_of u); e_raddr := APath []; e_status := spec_none;
                    e_owners := [o] |}) (own (u_inode u)).
 
